@@ -152,6 +152,16 @@ def gen_cases(rng, tier):
                 add(op='test', fn=fn, a=a, b=b)
             for fn in ('mul_units', 'div_units'):
                 add(op='static', fn=fn, a=a, b=b, name=None)
+    # equal rational coefficient, different power of pi (REV/2 against RAD, 180*DEG against RAD, …): the "factor is unity"
+    # shortcut of Units.convert must look at the pi exponent too (seeded change C12v-a)
+    for a in distinct:
+        for b in distinct:
+            ra, rb = R.ref_of(a), R.ref_of(b)
+            if ra[0] == rb[0] and ra[2] != rb[2]:
+                q = ra[1] / rb[1]
+                b2 = ['num*', b, q.numerator, q.denominator]
+                add(op='convert', a=a, b=b2, value=rng.choice([1.0, 0.5, 3.0, 2.75, -1.25]))
+                add(op='convert', a=b2, b=a, value=rng.choice([1.0, 0.5, 3.0, 2.75, -1.25]))
     for a in allnames:
         add(op='law', law='divself', a=a)
         add(op='law', law='sqrtsq', a=a)
